@@ -134,3 +134,16 @@ def run(ctx):
                 "histories; every execution runs the real code (traces_validated)" %
                 (scenarios(ctx.thorough), "14/29" if ctx.thorough else "14", bound, depth))
     ctx.assumptions = ["sequentially consistent atomics", "cap %d executions per scenario (reported if hit)" % cap]
+
+
+def replay(ctx, path):
+    """Re-run one recorded schedule without the explorer: ./check C40 --replay <file>"""
+    import json as _json
+    r = _json.load(open(path))["replay"]
+    if "history" in r:
+        p = subprocess.run([exe(), "seq", str(len(r["history"])), str(r.get("prefill", 0)), "0", "1"], capture_output=True, text=True)
+    else:
+        p = subprocess.run([exe(), "replay", r["scenario"], str(r["prefill"]), r.get("schedule", "")], capture_output=True, text=True)
+    print(p.stdout[-3000:])
+    print("replay exit", p.returncode)
+    return 1 if p.returncode else 0
